@@ -661,7 +661,10 @@ impl<K: CacheKey + 'static> AsyncCache<K> for DiskCache<K> {
                 .fetch_sub(entry.size_bytes as u64, Ordering::Relaxed);
             Ok(true)
         } else {
-            Ok(false)
+            // Not indexed (e.g. written by a previous instance on this directory):
+            // delete the file get() would otherwise fall back to and serve.
+            let file_path = self.get_file_path(key);
+            Ok(file_path.is_file() && fs::remove_file(&file_path).is_ok())
         }
     }
 
